@@ -10,7 +10,9 @@ fn main() {
     if !src.contains(import) {
         panic!("semaphore.rs does not contain the expected import line `{}`; the instrumentation must be adapted", import);
     }
-    let mut out = src.replace(import, "use shuttle::sync::{Arc, Condvar, Mutex};");
+    // every std::sync item (also atomics a later version may introduce) becomes shuttle's, so that each
+    // access is a scheduling point
+    let mut out = src.replace("std::sync::", "shuttle::sync::");
     if let Some(i) = out.find("#[cfg(test)]") {
         out.truncate(i);
     }
